@@ -98,13 +98,15 @@ CPPManifest(const CPPPreprocessor &parser, const string &args, const cppyyltype 
 
   vector_string parameter_names;
 
-  if (args[p] == '(') {
+  if (p < args.size() && args[p] == '(') {
     // Hmm, parameters.
     _has_parameters = true;
     parse_parameters(args, p, parameter_names);
     _num_parameters = parameter_names.size();
 
-    p++;
+    if (p < args.size()) {
+      p++;
+    }
   } else {
     _has_parameters = false;
     _num_parameters = 0;
@@ -147,7 +149,7 @@ CPPManifest(const CPPPreprocessor &parser, const string &macro, const string &de
 
   vector_string parameter_names;
 
-  if (macro[p] == '(') {
+  if (p < macro.size() && macro[p] == '(') {
     // Hmm, parameters.
     _has_parameters = true;
     parse_parameters(macro, p, parameter_names);
